@@ -97,6 +97,12 @@ pub fn run(ctx: &mut Ctx) {
                     }];
                     case(ctx, &parser, &format!("tablerow:{}:{}:{}", on(off), on(lim), on(&cols)), t, &data);
                 }
+                // degenerate column counts: zero is an error (never a division by zero), a negative
+                // count is an error or a table without row breaks, never a panic (judged by the model)
+                for cols in [0i64, -1, i64::MIN] {
+                    let t = vec![Node::TableRow { x: "x".into(), rng: RangeE::Arr(var("a")), cols: Some(lit_i(cols)), limit: opt_lit(*lim), offset: opt_lit(*off), body: vec![out(var("x"))] }];
+                    case(ctx, &parser, "tablerow-degenerate-cols", t, &data);
+                }
             }
         }
     }
